@@ -41,6 +41,8 @@ package redisemu
 //@ ensures [C20,C12] terminate.queued: !old(cc.closing) ==> gTerminateQueued
 //@ ensures [C20] socket.closed: !old(cc.closing) && cc.waiting ==> gSocketClosed
 //@ ensures [C12] unblocked: !old(cc.closing) ==> gUnblockCalls == old(gUnblockCalls) + 1
+// the closing flag is published before the blocked command is unblocked: a command that captures after the unblock found nothing to post to must see the flag
+//@ assertbefore "cc.cs.unblock(" [C12,C20] closing.published.first: cc.closing
 //@ ensures [C20] once: old(cc.closing) ==> gTerminateQueued == old(gTerminateQueued) && gSocketClosed == old(gSocketClosed)
 
 //@ func clientCxn.IsCloseRequested
